@@ -23,13 +23,20 @@ pub fn run_property(id: &str, args: &Args) -> i32 {
         "C04" => drive(&engine::c04::C04, args),
         "C05" => drive(&engine::c05::C05, args),
         "C06" => drive(&engine::c06::C06, args),
+        "C07" => drive(&engine::c07::C07, args),
         "C08" => drive(&engine::props_write::c08(), args),
         "C09" => drive(&engine::c09::C09, args),
         "C10" => drive(&engine::c10::C10, args),
         "C11" => drive(&engine::props_write::c11(), args),
+        "C12" => drive(&engine::c12::C12, args),
+        "C13" => drive(&engine::c13::C13, args),
         "C14" => drive(&engine::props_misc::c14(), args),
+        "C15" => drive(&engine::c15::C15, args),
         "C16" => drive(&engine::props_write::c16(), args),
+        "C17" => drive(&engine::c17::C17, args),
         "C18" => drive(&engine::props_damage::c18(), args),
+        "C19" => drive(&engine::c19::C19, args),
+        "C20" => drive(&engine::c20::C20, args),
         _ => {
             println!("unknown property {id}");
             2
